@@ -43,6 +43,23 @@ FNext ==
   /\ UNCHANGED <<nops, trk, hub, clk, res, rd>>
 FSpec == FInit /\ [][FNext]_<<vars, rd>>
 
+(* a second family: a root, K concurrent children, and one commit joining all of them (K = 2..4 parents: git allows any
+   number), with or without operations of its own, its edit clock just above / equal to / far above its parents' *)
+OctoDags ==
+  { [i \in 1..(K + 2) |->
+       IF i = 1 THEN [par |-> <<>>, et |-> 1, ct |-> 1, au |-> "u1", ops |-> <<1>>, rank |-> d, bug |-> 1]
+       ELSE IF i <= K + 1 THEN [par |-> <<1>>, et |-> 2, ct |-> 0, au |-> "u1", ops |-> <<i>>, rank |-> d * i, bug |-> 1]
+       ELSE [par |-> [j \in 1..K |-> j + 1], et |-> e, ct |-> 0, au |-> "u1", ops |-> (IF k = 1 THEN <<K + 2>> ELSE <<>>), rank |-> d * i, bug |-> 1]] :
+      K \in 2..4, e \in {2, 3, Far}, k \in 0..1, d \in {1, -1} }
+OInit ==
+  /\ commits \in OctoDags /\ nops = 0 /\ rd = 1
+  /\ ref = [r \in Replica |-> [b \in Bugs |-> Len(commits)]]
+  /\ trk = [r \in Replica |-> [b \in Bugs |-> 0]]
+  /\ hub = [b \in Bugs |-> 0]
+  /\ clk = [r \in Replica |-> [e |-> 1, c |-> 1, de |-> 1, dc |-> 1]]
+  /\ res = NoRes
+OSpec == OInit /\ [][UNCHANGED <<vars, rd>>]_<<vars, rd>>
+
 BothDirs == {1, -1}
 OneDir == {1}
 Tip == Len(commits)
